@@ -42,6 +42,54 @@ SEEDS = {
  ('C20','A'): ('data/ons', 'a name put on sale by its owner that expires while listed and is then bought as an expired name: the buyer receives a record still listed at the previous owner\'s price'),
  ('C20','B'): ('data/ons', 'a governance change of the ONS price options whose finalisation passes some node\'s CheckTx (submitted as a transaction) and an ONS create/renew/purchase delivered before the finalisation itself'),
 }
+
+# Round 2 (written against d87a36a; stored as variants E/F; sources in /tmp/wt2_<Cxx>/_seed)
+SEEDS2 = {
+ ('C01','A'): ('data/rewards', 'as C08-A/C13-A (the author was not told that site was taken for other properties): restart at a height that is not the first block of a reward cycle'),
+ ('C01','B'): ('app', 'delegators.WithState(deliver) dropped in ValidatorCtx: on one node only, a CheckTx between the last DeliverTx and EndBlock of a block in which an unstake matures or a verdict is executed'),
+ ('C02','A'): ('action/olvm', 'UsedGas sampled before the gas refund: an OLVM call that earns a refund (clears a non-zero storage slot); the fee pool is credited the pre-refund gas'),
+ ('C02','B'): ('action/network_delegation', 'the same delegator with two NETWORK_UNDELEGATE in one block: the second skips the pool debit'),
+ ('C03','A'): ('action/transfer', 'signature cache keyed without the message: the victim\'s own earlier transaction validated by this process, then its signature attached to a different transaction'),
+ ('C03','B'): ('action/olvm', 'OLVM sender check with && instead of ||: From = victim, signature and declared key of the attacker'),
+ ('C04','A'): ('action/transfer', 'ed25519 verification cache that ignores the message: genuine transaction first, then a forgery reusing key and signature on the same process'),
+ ('C04','B'): ('action/olvm', 'OLVM Validate no longer checks the fee currency: the one fee field the EVM-style signature does not cover is rewritten; delivery then kills the process in Coin.Plus'),
+ ('C05','A'): ('app', 'index lookup bounded by the header height: executed transaction, clean restart, identical bytes checked before the first BeginBlock after the restart'),
+ ('C05','B'): ('action/transfer', 'ValidateBasic accepts surplus signature entries: executed transaction resubmitted with one more well-formed signature appended'),
+ ('C06','A'): ('action/transfer', 'discarded session reused without clearing its done map: a transaction that fails after writing, then the very next session on that state writes one of the same keys'),
+ ('C06','B'): ('action/olvm', 'Finalise returns early when nothing was journaled: OLVM message refused by the pre-check, native change of the same account, then a good OLVM transaction, in one block'),
+ ('C07','A'): ('app', 'doEthTransitions no longer re-aims the tracker store: an ongoing tracker due for a transition and a CheckTx between the last DeliverTx and EndBlock'),
+ ('C07','B'): ('app', 'DeliverTx skips Validate for transactions this node admitted in CheckTx: a transaction whose verdict flips between admission and delivery (second of two OLVM transactions with the same nonce)'),
+ ('C08','A'): ('app', 'proposal options no longer loaded at start-up: a restart, then a funded proposal finalised afterwards (execution-cost share paid to the empty address)'),
+ ('C08','B'): ('app', 'an already queued broadcast job stops the lock tracker\'s first transition: witness node, kill after the EndBlock that queued the job and before Commit, restart and replay'),
+ ('C09','A'): ('storage', 'session delete of a key written in the same session drops the entry when the block cache does not know the key (forgets the committed tree)'),
+ ('C09','B'): ('storage', 'GetVersioned at the newest committed version answers from the live state: pending writes show up in a committed version'),
+ ('C10','A'): ('identity', 'IterateSuspiciousValidators stops at the first released record: X frozen and released earlier, then Y whose address sorts after X is frozen'),
+ ('C10','B'): ('identity', 'lastActive holds only the validators that signed: the validator to be removed missed the commit before the purge (node off, then full unstake or freeze)'),
+ ('C11','A'): ('identity', 'fetchPostponedUnstakes stops after the first validator: two validators found guilty at the end of the same block'),
+ ('C11','B'): ('app', 'as C01-B: CheckTx between the last DeliverTx and an EndBlock that executes a verdict'),
+ ('C12','A'): ('app', 'matured-undelegation payout loop stops at a zero-amount entry: an undelegation of amount 0 and another delegator (address sorting after) undelegating in the same block'),
+ ('C12','B'): ('app', 'matureDelegationRewards only while the delegation pool is non-empty: a reward withdrawal pending while every delegator fully undelegates'),
+ ('C13','A'): ('data/rewards', 'year selection also looks at the latest block: restart inside the one cycle per year that starts outside the close window and runs into it'),
+ ('C13','B'): ('data/rewards', 'Burnedout() only trusts the cache for the cycle it was calculated in: schedule over, a cycle boundary crossed since, pool below the burnout rate'),
+ ('C14','A'): ('action/governance', 'expiry accepted at height equal to the voting deadline: external EXPIRE_VOTES in exactly that block'),
+ ('C14','B'): ('action/governance', 'DeductFunds checks the proposal total only: cancelled or goal-missed proposal with two funders, one withdraws more than its own contribution'),
+ ('C15','A'): ('action/eth', 'quorum rounds two thirds up: witness count a multiple of 3 (3, 6, ...), exactly two thirds of reports'),
+ ('C15','B'): ('action/eth', 'the "already failed" early return removed: redeem tracker, more than two thirds failure reports, one more "no" report in the same block'),
+ ('C16','A'): ('data/balance via vm', 'zero balances no longer written: an account that survives Finalise drops from non-zero to exactly zero in one transaction'),
+ ('C16','B'): ('vm', 'self-destruct flag journaled after it is set: SELFDESTRUCT inside a call frame that is later reverted'),
+ ('C17','A'): ('action/olvm', 'Apply returns before Finalise on a pre-check error: refused OLVM transaction, native change of the same account, good OLVM transaction in one block'),
+ ('C17','B'): ('action/olvm', 'reverted run reports the gas limit as gas used: a call ending in REVERT with a gas limit above the gas used'),
+ ('C18','A'): ('action/eth', 'AddVote upper bound off by one: finality report with VoteIndex exactly equal to the witness count on an ongoing tracker'),
+ ('C18','B'): ('external_apps/bid/bid_action', 'counter offer currency check removed: live bid conversation, counter offer in another registered currency of a different chain'),
+ ('C19','A'): ('identity', 'as C10-A'),
+ ('C19','B'): ('action/evidence', 'release time counted in hours instead of days: non-zero release time and a release request between N hours and N days after the freeze'),
+ ('C20','A'): ('data/ons', 'sub-domain range end without the separator: two names of different owners where one is a textual suffix of the other, and an owner operation on the shorter one (patch rebased onto effee37, original kept as patch.orig.diff)'),
+ ('C20','B'): ('action/ons', 'renew callback stops after the first sub-domain: a parent with two sub-domains and a renewal'),
+}
+
+def keep(pid, v, newv, pkg, needs, src):
+    pass
+
 if __name__ == '__main__':
     for (pid, v), (pkg, needs) in sorted(SEEDS.items()):
         src = f'/tmp/wt_{pid}/_seed'
@@ -67,6 +115,34 @@ if __name__ == '__main__':
         if os.path.exists(f'{dst}/meta.json'):
             old = json.load(open(f'{dst}/meta.json'))
         for k in ('checks_run', 'result', 'history'):
+            if k in old: meta[k] = old[k]
+        json.dump(meta, open(f'{dst}/meta.json', 'w'), indent=1)
+        print('kept', dst)
+
+    import glob
+    for (pid, v), (pkg, needs) in sorted(SEEDS2.items()):
+        src = f'/tmp/wt2_{pid}/_seed'
+        if not os.path.exists(f'{src}/{v}.diff'):
+            print('missing', pid, v); continue
+        used = sorted(os.path.basename(d).split('-')[1] for d in glob.glob(f'/verif/seeded/{pid}-?'))
+        newv = {'A': 'E', 'B': 'F'}[v]
+        dst = f'/verif/seeded/{pid}-{newv}'
+        os.makedirs(dst, exist_ok=True)
+        diff = f'{src}/{v}.rebased.diff' if os.path.exists(f'{src}/{v}.rebased.diff') else f'{src}/{v}.diff'
+        shutil.copy(diff, f'{dst}/patch.diff')
+        if os.path.exists(f'{src}/{v}.rebased.diff'):
+            shutil.copy(f'{src}/{v}.diff', f'{dst}/patch.orig.diff')
+        shutil.copy(f'{src}/demo_{v}_test.go', f'{dst}/demo_test.go.txt')
+        if os.path.exists(f'{src}/NOTES.txt'):
+            shutil.copy(f'{src}/NOTES.txt', f'{dst}/NOTES.txt')
+        meta = {'property': pid, 'variant': f'{newv} (round 2, {v} of its author)',
+                'demo': {'file': 'demo_test.go.txt', 'belongs_in': pkg, 'run': 'see NOTES.txt (demonstrations in package app and action/ons are compiled with the non-test files only)'},
+                'needs_to_manifest': needs,
+                'confirmed': 'by me in the scratch worktree the change was written in (d87a36a): the demonstration passes without the change and fails with it; go test -vet=off -count=1 ./... keeps its failing set (seedverify.sh / seedverify_app.sh with WT_PREFIX=/tmp/wt2_)'}
+        old = {}
+        if os.path.exists(f'{dst}/meta.json'):
+            old = json.load(open(f'{dst}/meta.json'))
+        for k in ('checks_run', 'result'):
             if k in old: meta[k] = old[k]
         json.dump(meta, open(f'{dst}/meta.json', 'w'), indent=1)
         print('kept', dst)
